@@ -31,10 +31,13 @@ TAdd == /\ IsEvent("add")
         /\ last'.ok = Ev.ok /\ last'.bin = Ev.bin
         /\ hist'[Ev.slot].bins = Ev.bins
         /\ SumBins(hist'[Ev.slot].bins) = Ev.total
+        /\ Ev.views_ok                 \* variance(i) = variances()[i], within [0, total/4]
 TMerge == /\ IsEvent("merge") /\ Merge(Ev.dst, Ev.src)
           /\ last'.panic = Ev.panic /\ hist'[Ev.dst].bins = Ev.bins /\ hist'[Ev.src].bins = Ev.srcbins
+          /\ Ev.views_ok               \* also after a panicking merge
 TAddAssign == /\ IsEvent("addassign") /\ AddAssign(Ev.dst, Ev.src)
               /\ last'.panic = Ev.panic /\ hist'[Ev.dst].bins = Ev.bins /\ hist'[Ev.src].bins = Ev.srcbins
+              /\ Ev.views_ok
 TMul == IsEvent("mul") /\ MulAssign(Ev.slot, Ev.k) /\ hist'[Ev.slot].bins = Ev.bins
 TReset == IsEvent("reset") /\ Reset(Ev.slot) /\ hist'[Ev.slot].bins = Ev.bins
 TClone == IsEvent("clone") /\ Clone(Ev.dst, Ev.src) /\ hist'[Ev.dst].bins = Ev.bins
